@@ -12,6 +12,7 @@ import builtins
 import calendar
 import datetime as _dt
 import io
+import threading
 import os
 import posixpath
 import sys
@@ -244,6 +245,20 @@ class World:
             return FixedTimezone(key)
         if isinstance(key, (tuple, list)) and key[0] == "file":
             return Timezone.from_file(io.BytesIO(key[1]))
+        z = ZONE_HISTORY
+        if z["replay"] is not None:
+            # reference evaluation: the zone cache is cleared between exactly those harness lookups
+            # of this op between which it was cleared in the simulation (see ZONE_HISTORY)
+            k = z["k"]
+            z["k"] = k + 1
+            e = z["replay"][k] if k < len(z["replay"]) else z["last"]
+            if e != z["last"]:
+                Timezone.clear_cache()
+                z["last"] = e
+        else:
+            lst = z["log"].get(threading.get_ident())
+            if lst is not None:
+                lst.append(z["epoch"])
         return pendulum.timezone(key)
 
     # ---------------------------------------------------------------- caches
@@ -261,6 +276,7 @@ class World:
         except AttributeError:
             pass
         Timezone.clear_cache()
+        ZONE_HISTORY["epoch"] += 1
         zoneinfo.ZoneInfo.clear_cache()
         # a fresh process has UTC in the weak cache (module constant keeps it alive)
         try:
@@ -280,6 +296,8 @@ class World:
 
     def reset(self, cfg):
         self.drop_caches()
+        ZONE_HISTORY.update(epoch=0, replay=None, k=0, last=0)
+        ZONE_HISTORY["log"].clear()
         pendulum._LOCALE = "en"
         pendulum._WEEK_STARTS_AT = pendulum.WeekDay.MONDAY
         pendulum._WEEK_ENDS_AT = pendulum.WeekDay.SUNDAY
@@ -297,6 +315,30 @@ class World:
 
     def close(self):
         self._traveller.stop()
+
+
+# Whether two values of one named zone share their tzinfo *object* is decided by zoneinfo's cache,
+# i.e. by history (a clear_cache(), a restart).  Results may legitimately depend on it where no
+# property speaks (components of an interval between the two occurrences of one wall time), so the
+# history of the cache is part of what the reference evaluation replays: every zone lookup made
+# by the harness while it builds an op's inline arguments logs the cache generation ("epoch") it
+# happened in (entry 0: the generation the op was invoked in); the reference evaluation clears the
+# cache before the k-th lookup iff the epoch changed there.  epoch: bumped by the nemesis clear and by restarts.  log: thread ident -> list.
+ZONE_HISTORY = {"epoch": 0, "log": {}, "replay": None, "k": 0, "last": 0}
+
+
+def zone_replay(epochs, last=0):
+    """entry 0 is the epoch the op was invoked in (lookups made by pendulum itself see that cache)"""
+    ZONE_HISTORY.update(replay=list(epochs), k=1, last=last)
+    if epochs and epochs[0] != last:
+        Timezone.clear_cache()
+        ZONE_HISTORY["last"] = epochs[0]
+
+
+def zone_replay_end():
+    last = ZONE_HISTORY["last"]
+    ZONE_HISTORY.update(replay=None, k=0)
+    return last
 
 
 def zone_key(tz):
